@@ -811,10 +811,13 @@ void profile_history(RunCtx& ctx)
         if (ctx.violations)
             return;
         const uint32_t after = clock_now();
-        if (after < before) {
+        // a wrap is the counter running over 2^32 - not any backward move (a clock that is *reset* is a different defect)
+        const bool true_wrap = after < before && (uint64_t)before + op.call.bytes.size() + 300000 >= (1ull << 32);
+        if (true_wrap) {
             ++wraps;
             ctx.count("clock-wrapped-2^32-inside-call");
-        }
+        } else if (after < before)
+            ctx.count("clock-moved-backwards-without-wrap");
         if (before < (1u << 31) && after >= (1u << 31))
             ctx.count("clock-crossed-2^31-inside-call");
         ctx.count("clock-parsed-bytes", after >= before ? after - before : 0);
@@ -847,7 +850,7 @@ void profile_history(RunCtx& ctx)
         ctx.count("calls-compared");
         const std::string ref = refs[op.session][k].substr(1);
         if (rec != ref) {
-            const bool wrap_affected = wraps != wrap_epoch_at_load[op.session] || after < before;
+            const bool wrap_affected = wraps != wrap_epoch_at_load[op.session] || true_wrap;
             std::string d = first_diff(ref, rec);
             std::string kind = first_word(d.substr(d.find('[') + 1));
             std::string sig;
